@@ -10,6 +10,15 @@ NOTE = ("Trusted: Coq 8.16.1 kernel (vm_compute, no native_compute), no axioms d
         "the model (tolerance 1e-9 in the correspondence); numpy/pandas/dags behaviour is modelled, not verified.")
 
 CLAIMS = {
+    "C03": dict(
+        text="Theorem (model of numpy.vectorize with the declared dtype as otypes, for every rule, table and row): the column dtype is the "
+             "declared one and each cell is the rule's value for that row cast to it; the cast is the identity on values of the declared "
+             "type and a lossless widening for int/bool results of float rules; dtype inference from the first row is refuted by a "
+             "2-row witness. Tie: engine runs compare EVERY cell of every scalar-rule column of the default graph with the raw rule "
+             "called on that row's inputs (exact equality) and the dtype with the declared type; scalar calls check that every result "
+             "type casts losslessly to the declared type.",
+        technique="Coq proof (Column.vectorize_declared) + exhaustive per-cell differential engine runs",
+        design="6/C03"),
     "C04": dict(
         text="Theorem (abstract engine, any column type, any node operations, any data): evaluation pruned to ANY argument-closed set of "
              "names agrees with the full evaluation on that set, hence a common target has the same value under two target sets and "
